@@ -10,6 +10,7 @@ import M3d.Lemmas.TriPlace
 import M3d.Lemmas.TriFace
 import M3d.Lemmas.TriEar
 import M3d.Lemmas.TriOff
+import M3d.Lemmas.TriStart
 import M3d.Lemmas.Surface
 /-!
 # C14 — triangulation covers the polygon exactly
@@ -232,6 +233,40 @@ example :
     (triangulate false 7 l).map List.length = some 4 ∧
     triangulate false 7 (l.map (translate 1000000000 1000000000)) =
       (triangulate false 7 l).map (mapTris (translate 1000000000 1000000000)) := by
+  decide +kernel
+
+/-- **`triangulate_any_start_any_order`.**  `Triangulate` (model2d and the `model3d` wrapper that
+`TriangulateFace` / `ReadOFF` go through) takes the polygon as "a series of points, in order; the
+first point is re-used as the ending point", i.e. as a CYCLIC list: the same polygon can be listed
+from any starting vertex (`l.rotate k` = Go `append(p[k:], p[:k]...)`) and in either order
+(`l.reverse`).  For every list `l` of any length, every `k`:
+the shoelace sum — hence the area the returned triangles must add up to — is the same for every
+starting vertex and only changes sign under reversal; the orientation of the polygon (`isClockwise`,
+the model of `isPolygonClockwise`, with which the orientation of every returned triangle is checked)
+is the same for every starting vertex and flips under reversal.  So the answer the `ear` / `ear3` /
+`face` / `off` kinds demand for a polygon is the same whichever vertex the list starts at, convex or
+reflex, and for both orders, at every size — the orientation is a property of the WHOLE outline
+(the example below: it cannot be read off the turn at one vertex of the list). -/
+theorem triangulate_any_start_any_order (l : List (P2 K)) (k : Nat) :
+    shoelace2 (l.rotate k) = shoelace2 l ∧
+    shoelace2 l.reverse = -shoelace2 l ∧
+    |shoelace2 (l.rotate k)| = |shoelace2 l| ∧ |shoelace2 l.reverse| = |shoelace2 l| ∧
+    isClockwise (l.rotate k) = isClockwise l ∧
+    (shoelace2 l ≠ 0 → isClockwise l.reverse = !isClockwise l) :=
+  ⟨shoelace2_rotateN l k, shoelace2_reverse l, by rw [shoelace2_rotateN],
+    by rw [shoelace2_reverse, abs_neg], isClockwise_rotate l k, isClockwise_reverse l⟩
+
+/-- Non-vacuity and regression example: the arrow head `tip (0,4), wing (2,0), notch (0,1), wing (−2,0)`
+is clockwise from every starting vertex; listed from a wing, the SECOND vertex of the list is the
+notch, where the outline turns counter-clockwise (`orient > 0`) — the turn at one vertex is not the
+orientation of the polygon.  The model of `Triangulate` returns two triangles for each of the four
+starting vertices and for the reversed list. -/
+example :
+    let l : List (P2 Rat) := [⟨0, 4⟩, ⟨2, 0⟩, ⟨0, 1⟩, ⟨-2, 0⟩]
+    (∀ k ∈ [0, 1, 2, 3], isClockwise (l.rotate k) = true ∧
+      (triangulate false 5 (l.rotate k)).map List.length = some 2) ∧
+    0 < orient ((l.rotate 1).getD 0 zeroP) ((l.rotate 1).getD 1 zeroP) ((l.rotate 1).getD 2 zeroP) ∧
+    isClockwise l.reverse = false ∧ (triangulate false 5 l.reverse).map List.length = some 2 := by
   decide +kernel
 
 /-! ### pointwise: inside, non-overlapping, covering -/
